@@ -549,10 +549,20 @@ pub fn gen_voice(t: &mut Tape, o: GenOpts) -> VoiceSpec {
     }
     let spec_name = if lsp { "LSP" } else { "MCP" };
     let spec_model = gen_model(t, if lsp { "lsp" } else { "mgc" }, &states, spec_len * nw * 2, o.max_depth, spec_pdf);
+    // GV statistics consistent with the stream's own PDFs (variance of the static means over all
+    // PDFs, times a factor in [0.5,1.5]) so that GV does not push parameters out of the stable range
+    let static_var = |m: &ModelSpec, l: usize, k: usize| -> f64 {
+        let vals: Vec<f64> = m.trees.iter().flat_map(|t| t.pdfs.iter().map(move |p| p[k] as f64)).collect();
+        let _ = l;
+        let mean = vals.iter().sum::<f64>() / vals.len().max(1) as f64;
+        vals.iter().map(|v| (v - mean) * (v - mean)).sum::<f64>() / vals.len().max(1) as f64
+    };
     let spec_gv_model = if spec_gv {
+        let vars: Vec<f64> = (0..spec_len).map(|k| static_var(&spec_model, spec_len, k)).collect();
         Some(gen_model(t, "gv_mgc", &[2], spec_len * 2, 2, |t, _| {
-            let mut v: Vec<f32> = (0..spec_len).map(|_| t.log_uniform(0.005, 0.2) as f32).collect();
-            v.extend((0..spec_len).map(|_| t.log_uniform(1e-4, 1e-2) as f32));
+            let means: Vec<f32> = vars.iter().map(|v| (v * t.uniform(0.5, 1.5)).max(1e-6) as f32).collect();
+            let mut v = means.clone();
+            v.extend(means.iter().map(|m| (0.3 * m) * (0.3 * m)).map(|x| x.max(1e-12)));
             v
         }))
     } else {
@@ -591,7 +601,11 @@ pub fn gen_voice(t: &mut Tape, o: GenOpts) -> VoiceSpec {
         v
     });
     let lf0_gv_model = if lf0_gv {
-        Some(gen_model(t, "gv_lf0", &[2], 2, 2, |t, _| vec![t.log_uniform(0.005, 0.1) as f32, t.log_uniform(1e-5, 1e-3) as f32]))
+        let v = static_var(&lf0_model, 1, 0);
+        Some(gen_model(t, "gv_lf0", &[2], 2, 2, |t, _| {
+            let m = (v * t.uniform(0.5, 1.5)).max(1e-5) as f32;
+            vec![m, ((0.3 * m) * (0.3 * m)).max(1e-12)]
+        }))
     } else {
         None
     };
